@@ -50,6 +50,8 @@ type c02Ev struct {
 	NC  int    `json:"nc"`
 	Hit int    `json:"hit"`
 	RI  int    `json:"ri"`
+	G   uint64 `json:"g"` // goroutine that logged the record (bounds the instant of an automatic removal)
+	BI  int    `json:"bi"`
 }
 
 type c02Result struct {
@@ -80,6 +82,7 @@ func runC02Scenario(sc c02Scenario) c02Result {
 	var seq atomic.Int64
 	var mu sync.Mutex
 	log := func(e c02Ev) {
+		e.G = verifkit.GoID()
 		mu.Lock()
 		e.Seq = int(seq.Add(1))
 		res.Events = append(res.Events, e)
